@@ -22,6 +22,8 @@ fn main() {
     // Only re-run when build.rs itself changes.
     // Changes to the rs-matter-codegen build-dependency are tracked automatically by Cargo.
     println!("cargo:rerun-if-changed=build.rs");
+    // Verification hooks (off unless built with `--cfg rs_matter_verif`).
+    println!("cargo:rustc-check-cfg=cfg(rs_matter_verif)");
 
     let out_dir = PathBuf::from(std::env::var("OUT_DIR").unwrap());
 
